@@ -522,7 +522,19 @@ impl<'a> Gen<'a> {
 
     fn lambda(&mut self, ps: &[Ty], r: &Ty, depth: usize) -> Expr {
         let mut params: Vec<(String, Ty)> = ps.iter().enumerate().map(|(i, t)| (format!("p{i}"), t.clone())).collect();
-        if !params.is_empty() && self.tape.chance(1, 6) {
+        if !params.is_empty() && self.tape.chance(1, 5) {
+            // one parameter spelled like a variable that is visible around the function (constants
+            // included): inside the body the name means the parameter
+            let outer: Vec<String> = self.visible().into_iter().filter(|v| !v.name.starts_with("tk") && v.name != "log" && !is_counter(&v.name)).map(|v| v.name).collect();
+            if !outer.is_empty() {
+                self.label("parameter spelled like a visible variable");
+                let k = self.tape.below(params.len());
+                let name = outer[self.tape.below(outer.len())].clone();
+                if !params.iter().any(|(n, _)| *n == name) {
+                    params[k].0 = name;
+                }
+            }
+        } else if !params.is_empty() && self.tape.chance(1, 6) {
             // one parameter spelled like a name the implementation's helper closures use
             self.label("parameter named like an internal helper name");
             let k = self.tape.below(params.len());
@@ -1968,6 +1980,21 @@ impl<'a> Gen<'a> {
                         Stmt::Expr(Expr::Index(Box::new(source), Box::new(index)))
                     }
                     _ => {
+                        let cells = self.writable_cells(|t| *t == Ty::cell(Ty::Int));
+                        if !cells.is_empty() && self.tape.chance(1, 3) {
+                            let c = cells[self.tape.below(cells.len())].name.clone();
+                            let k = self.lit(&Ty::Int);
+                            let update = Expr::Assign(*self.tape.pick(&["+=", "-=", "="]), Box::new(Expr::Var(c)), Box::new(k));
+                            if self.tape.bool() {
+                                // a cell made and dropped at once: its initial value is still evaluated
+                                self.label("discarded cell creation whose initial value updates a cell");
+                                return Some(Stmt::Expr(Expr::MutNew(Ty::Int, Box::new(update))));
+                            }
+                            // the same effectful element written several times: evaluated as often
+                            self.label("array of identically spelled effectful elements");
+                            let n = 2 + self.tape.below(2);
+                            return Some(Stmt::Expr(if self.tape.bool() { Expr::Array(vec![update; n]) } else { Expr::Tuple(vec![update; n]) }));
+                        }
                         let t = self.gen_scalar_ty();
                         let e = self.expr(&t, depth);
                         Stmt::Expr(e)
